@@ -112,6 +112,11 @@ def run_impl(sj, c):
         r = M - A
     elif op == 'matrix':
         r = A.matrix(T)
+    elif op == 'make_matrix':
+        r = sj.make_matrix(A, T)
+    elif op == 'pack':
+        from sequence_jacobian.classes import JacobianDict
+        r = JacobianDict({'o': {'i': A}}, ['o'], ['i'], T=T).pack(T)
     elif op == 'diag':
         r = sj.SimpleSparse.from_simple_diagonals({int(i): float(x) for i, x in c['d']})
     if isinstance(r, sj.SimpleSparse):
@@ -256,7 +261,7 @@ def check_case(sj, c):
            'scale': lambda: c['a'] * dT, 'tr': lambda: dA.T[:T, :T], 'mul': lambda: (dA @ dB)[:T, :T],
            'nonzero': lambda: dT, 'spmat': lambda: dT @ M, 'spvec': lambda: dT @ M, 'matsp': lambda: M @ dT,
            'vecsp': lambda: (M[:, 0] @ dT)[:, None], 'adddense': lambda: dT + M, 'radddense': lambda: M + dT,
-           'subdense': lambda: dT - M, 'rsubdense': lambda: M - dT, 'matrix': lambda: dT,
+           'subdense': lambda: dT - M, 'rsubdense': lambda: M - dT, 'matrix': lambda: dT, 'make_matrix': lambda: dT, 'pack': lambda: dT,
            'diag': lambda: dense({(int(i), 0): float(x) for i, x in c['d']}, N)[:T, :T]}[op]()
     if gotd.shape != exp.shape or not np.allclose(gotd, exp, atol=1e-9, rtol=0):
         far = any(k[0] > T for k, _ in c['A'])
@@ -344,7 +349,7 @@ def oracle(ctx, hints, broken):
         M = rng.imat(T, T)
         for i in range(-T - 3, T + 4):
             for m in range(0, T + 2):
-                for op in ('matrix', 'adddense', 'spmat', 'matsp'):
+                for op in ('matrix', 'make_matrix', 'pack', 'adddense', 'spmat', 'matsp'):
                     c = dict(op=op, T=T, A=[[[i, m], 2]], M=M, S=T)
                     v = check_case(sj, c)
                     n += 1
